@@ -90,6 +90,115 @@ def packet_bytes():
     return Scenario(label, PK + '.__bytearray__', gen, props=('C18', 'C09', 'C08'))
 
 
+def fingerprint_octets():
+    """Fingerprint.__bytes__: what is written into issuer-fingerprint, intended-recipient and revocation-key subpackets: the octets the 40 hex
+    digits spell - all twenty, also when the first ones are zero"""
+    label = 'C18/Fingerprint.__bytes__'
+    FPC = 'pgpy.types.Fingerprint'
+
+    def gen(repo):
+        r = scn.Run(repo, FPC, '__bytes__', label)
+        ex, st = r.ex, r.st
+        HEXDIGITS = z3.Const('FORTY_HEX_DIGITS', B)
+        st.pc += [z3.Length(HEXDIGITS) == 40]
+        me = E.VStr(z=HEXDIGITS, cls=FPC)
+        UNHEX = z3.Function('UNHEXLIFY', B, B)
+        for pi, (s, v) in enumerate(r.call(me, [])):
+            if isinstance(v, E.Raise):
+                r.oblige(s, 'safety(%s)/p%d' % (v.exc.split(':')[0], pi), z3.BoolVal(False), v.where)
+                continue
+            r.oblige(s, 'the-octets-the-hex-digits-spell(digit-pairs,leading-zeros-kept)/p%d' % pi,
+                     ex.seq(v, s) == UNHEX(HEXDIGITS) if isinstance(v, (E.VBytes, E.VBuf)) else z3.BoolVal(False))
+        return r.result()
+
+    def native(rng, n):
+        from pgpy.types import Fingerprint
+        viol, cases = [], 0
+        samples = ['00' * 20, '00' + 'AB' * 19, '0000' + 'CD' * 18, '0' + 'F' * 39, 'FF' * 20] + ['%040X' % rng.getrandbits(160 - 8 * (i % 3)) for i in range(max(20, n // 10))]
+        for h in samples:
+            cases += 1
+            try:
+                got = bytes(Fingerprint(h))
+                if got != bytes.fromhex(h):
+                    viol.append({'args': {'fingerprint': h}, 'violation': 'bytes(Fingerprint) is %s (%d octets), the digits spell %d octets' % (got.hex(), len(got), 20)})
+                    break
+            except Exception as ex:
+                viol.append({'args': {'fingerprint': h}, 'violation': 'raised %s' % type(ex).__name__})
+                break
+        return {'cases': cases, 'violations': viol}
+    return Scenario(label, FPC + '.__bytes__', gen, props=('C18', 'C02'), native=native)
+
+
+def parsed_packet_consistency():
+    """a public key packet that was READ (from another encoder: its integers need not be in the form PGPy writes - bit counts rounded up,
+    leading zero octets): the fingerprint is SHA-1 over 0x99, the two-octet length and the packet body AS EXPORTED. parse, then both
+    __bytearray__ and fingerprint on the object parse left behind; the material parser / writer are given by contract: the writer yields the
+    re-encoded public fields (some octets CANON, not provably the octets that were read)."""
+    label = 'C18/PubKeyV4.parse,then-export-and-fingerprint[the fingerprint is over the body as exported]'
+    F = 'pgpy.packet.fields.'
+
+    def gen(repo):
+        r = scn.Run(repo, PK, 'parse', label)
+        ex, st = r.ex, r.st
+        OLD, HL, HDRONLY, CANON = z3.Const('RECEIVED', B), z3.Int('header_length'), z3.Const('PACKET_HEADER', B), z3.Const('PUBLIC_FIELDS_AS_PGPY_WRITES_THEM', B)
+        r.set('pkt', 'header', E.VObj('pgpy.packet.types.Header', 'hdr'))
+        r.set('hdr', '_len', E.VInt(HL))
+        for c in ('pgpy.packet.types.Packet', 'pgpy.packet.types.VersionedPacket'):
+            r.hook(c, 'parse', scn.mconst(E.VNone()))
+        st.pc += [HL >= 6, HL < 65536, z3.Length(OLD) == HL - 1, OLD[4] == 1, z3.Length(CANON) < 65000]
+        for i in range(4):
+            st.pc += [OLD[i] >= 0, OLD[i] < 256]
+        buf = ex.new_buf(st, OLD)
+        me = E.VObj(PK, 'pkt')
+        ex.hooks[('ext', 'datetime.fromtimestamp')] = lambda ex, st, o, a: [(st, E.VExt('datetime', (a[0],)))]
+        r.hook(F + 'RSAPub', '__call__', lambda ex, st, cls, a: [(st, E.VObj(F + 'RSAPub', 'material'))])
+        r.hook(F + 'RSAPub', 'parse', scn.method_hook(lambda ex, st, o, a: [(st, E.VNone())]))
+        r.hook(F + 'PubKey', 'publen', scn.mconst(E.VInt(z3.Length(CANON))))
+        r.hook(F + 'PubKey', '__bytearray__', scn.method_hook(lambda ex, st, o, a: [(st, ex.new_buf(st, CANON))]))
+        r.hook('pgpy.packet.types.VersionedPacket', '__bytearray__', scn.method_hook(lambda ex, st, o, a: [(st, ex.new_buf(st, cat(HDRONLY, U(4))))]))
+
+        def timegm(ex, st, o, a):
+            x = a[0]
+            if isinstance(x, E.VExt) and x.name.endswith('.utctimetuple') and isinstance(x.args[0], E.VExt) and x.args[0].name == 'datetime' and x.args[0].args:
+                return [(st, E.VInt(ex.as_int(x.args[0].args[0])))]          # the instant the four octets named
+            raise E.ToolLimit('calendar.timegm of an unexpected value')
+        ex.hooks[('ext', 'calendar.timegm')] = timegm
+        scn.local_zone_reading(ex)
+        for hc in ('pgpy.packet.types.Header', 'pgpy.packet.types.VersionedHeader'):
+            r.hook(hc, '__len__', scn.mconst(E.VInt(z3.Length(HDRONLY) + 1)))          # a versioned header counts its version octet
+
+        def upd(ex, st, o, a):
+            st.heap[('hdr', '_len')] = E.VInt(6 + z3.Length(CANON))
+            return [(st, E.VNone())]
+        for pc_ in (PK, 'pgpy.packet.types.Packet', 'pgpy.packet.types.VersionedPacket'):
+            r.hook(pc_, 'update_hlen', scn.method_hook(upd))
+        r.hook('pgpy.types.Fingerprint', '__call__', lambda ex, st, cls, a: [(st, E.VStr(z=a[0].z, cls='pgpy.types.Fingerprint'))])
+        call = lambda name, state: ex.call_func(E.VFunc(repo.lookup(PK, name)[2], None, cls=repo.lookup(PK, name)[1], self_val=me, mod=repo.classes[repo.lookup(PK, name)[1]].module),
+                                                [], {}, state, {'mod': repo.classes[repo.lookup(PK, name)[1]].module})
+        for pi, (s, v) in enumerate(r.call(me, [buf])):
+            if isinstance(v, E.Raise):
+                r.oblige(s, 'safety(%s)/p%d' % (v.exc.split(':')[0], pi), z3.BoolVal(False), v.where)
+                continue
+            for qi, (s2, exp) in enumerate(call('__bytearray__', s.clone())):
+                if isinstance(exp, E.Raise):
+                    r.oblige(s2, 'export:safety(%s)/p%d.%d' % (exp.exc.split(':')[0], pi, qi), z3.BoolVal(False), exp.where)
+                    continue
+                EXPORT = ex.seq(exp, s2)
+                s3 = s2.clone()
+                s3.ghost['hashed'] = []
+                for ri, (s4, fp) in enumerate(call('fingerprint', s3)):
+                    if isinstance(fp, E.Raise):
+                        r.oblige(s4, 'fingerprint:safety(%s)/p%d.%d.%d' % (fp.exc.split(':')[0], pi, qi, ri), z3.BoolVal(False), fp.where)
+                        continue
+                    hashed = s4.ghost.get('hashed', [])
+                    ok = len(hashed) == 1 and hashed[0][0] == 'sha1'
+                    blen = z3.Length(EXPORT) - z3.Length(HDRONLY)
+                    r.oblige(s4, 'fingerprint-hashes-0x99,length,and-the-body-as-exported/p%d.%d.%d' % (pi, qi, ri),
+                             z3.And(z3.BoolVal(bool(ok)), hashed[0][1] == cat(U(0x99), be(blen, 2), z3.Extract(EXPORT, z3.Length(HDRONLY), blen)) if ok else z3.BoolVal(False)))
+        return r.result()
+    return Scenario(label, PK + '.parse', gen, props=('C18',))
+
+
 # ---------------------------------------------------------------------------------------------------
 # per-material: publen() is the length of the public prefix of __bytearray__() (MPI-only materials)
 MATERIALS = {
@@ -191,7 +300,7 @@ shortid = Contract('C18/Fingerprint.shortid', 'pgpy.types.Fingerprint.shortid', 
 
 
 def scenarios():
-    out = [fingerprint(), packet_bytes(), keyid, shortid]
+    out = [fingerprint(), packet_bytes(), parsed_packet_consistency(), fingerprint_octets(), keyid, shortid]
     for c in ('RSAPub', 'DSAPub', 'ElGPub'):
         out.append(material(c))
     for c in ('RSAPriv', 'DSAPriv', 'ElGPriv'):
